@@ -166,6 +166,13 @@ def _sched_cases(thorough: bool, seed: int) -> list[dict]:
     # directed: the schedules that widen the check-then-remove window of the data-cache error handler
     for n, st in ([(8, "D-half"), (4, "D-half"), (8, "both-mid"), (16, "D-half"), (2, "D-half")] if thorough else [(8, "D-half"), (4, "D-half")]):
         out.append({"kind": "sched", "n": n, "state": st, "plan": "rendezvous", "at": ["os.remove", "D"], "s": 0})
+    # the start itself: N processes released before they import the package, on a cache folder that does not exist yet (they
+    # meet right before the first mkdir of the folder, wherever the tree does it) or is cold / damaged
+    for n in ((2, 4, 8, 16) if thorough else (2, 8, 16)):
+        out.append({"kind": "sched", "n": n, "state": "nofolder", "plan": "rendezvous", "at": ["os.mkdir", "."], "early": True, "s": n})
+    for j, st in enumerate(SCHED_STATES if thorough else ["nofolder", "cold", "D-half", "Q-mid"]):
+        out.append({"kind": "sched", "n": [2, 4, 8][j % 3], "state": st, "plan": "random", "quanta": [0, 0, 1, 5], "early": True,
+                    "s": rng.randrange(1 << 30)})
     n_rand, n_rdv, n_hold, n_ws = (330, 160, 0, 60) if thorough else (30, 14, 8, 6)
     for j in range(n_ws):
         out.append({"kind": "sched", "n": rng.choice([2, 3, 4]), "state": rng.choice(["cold", "valid", "D-half", "Q-mid", "both-mid", "D-frame", "clearing-warm"]),
@@ -266,8 +273,10 @@ def _stderr_tail(res: dict, n: int = 500) -> str:
 # ============================================================================================
 # reference + prepared folders
 def _names(cache: str) -> tuple[str, str]:
-    q = [f for f in os.listdir(cache) if f.startswith("db_quick_info_") and f.endswith(".cache")]
-    d = [f for f in os.listdir(cache) if f.startswith("db_data_") and f.endswith(".cache")]
+    # the two cache files are known by their prefixes; whatever follows the version part (".cache", ".cache.gz" ...) is the
+    # tree's business
+    q = [f for f in os.listdir(cache) if f.startswith("db_quick_info_") and not f.endswith(".lock")]
+    d = [f for f in os.listdir(cache) if f.startswith("db_data_") and not f.endswith(".lock")]
     if len(q) != 1 or len(d) != 1:
         raise core.Inconclusive(f"unexpected cache folder content: {sorted(os.listdir(cache))}")
     return q[0], d[0]
@@ -1238,6 +1247,8 @@ def _case_sched(case, ctx):  # noqa: C901
             ref = _reference(ctx, queries=queries) if queries != "full" else ref_for_prep
         procs = []
         extra_cfg: dict = {}
+        if case.get("early"):
+            extra_cfg["early"] = True  # released together before 'import spsdk': the import is part of the schedule
         if plan == "wstall":
             # multi-frame data cache from the first write on, children at different stages (staggered first use)
             extra_cfg["pre_files"] = _big_files(data or os.path.join(core.repo_root(), "spsdk", "data"))
